@@ -211,6 +211,10 @@ func NewStore(ctx context.Context, cfg StoreConfig) (*Store, error) {
 		if err := json.Unmarshal(data, &s.active.m); err != nil {
 			s.logf("WARNING: error decoding cache: %v (continuing)", err)
 			clear(s.active.m) // reset
+		} else if s.active.m == nil {
+			// A JSON null decodes without error and leaves a nil map.
+			s.logf("WARNING: cache is not valid; discarding it")
+			s.active.m = make(map[string]*cachedSecret)
 		} else if !s.isActiveSetValid() {
 			s.logf("WARNING: cache is not valid; discarding it")
 			clear(s.active.m) // reset
